@@ -22,11 +22,12 @@ for nm, fn, rel in (('lemask', lemask, lambda a, b: a <= b), ('ltmask', ltmask, 
                     ('gtmask', gtmask, lambda a, b: a > b), ('gemask', gemask, lambda a, b: a >= b),
                     ('reqmask', reqmask, lambda a, b: a == b)):
     axiom(nm + '.len', forall([r_, x_], T.blen(fn(r_, x_)) == T.rlen(r_), [fn(r_, x_)]), [nm], 'numpy')
-    axiom(nm + '.at', forall([r_, x_, i_], T.bat(fn(r_, x_), i_) == rel(T.rat(r_, i_), x_), [T.bat(fn(r_, x_), i_)]),
-          [nm], 'numpy')
+    axiom(nm + '.at', forall([r_, x_, i_], z3.Implies(z3.And(0 <= i_, i_ < T.rlen(r_)),
+                                                      T.bat(fn(r_, x_), i_) == rel(T.rat(r_, i_), x_)),
+                             [T.bat(fn(r_, x_), i_)]), [nm], 'numpy')
 from .lib import ilen, iat, real, intterm, mrows, mcols   # noqa  (after the masks: lib imports libnp lazily)
 axiom('ieqmask.len', forall([u_, k_], T.blen(ieqmask(u_, k_)) == ilen(u_), [ieqmask(u_, k_)]), ['ieqmask'], 'numpy')
-axiom('ieqmask.at', forall([u_, k_, i_], T.bat(ieqmask(u_, k_), i_) == (iat(u_, i_) == k_),
+axiom('ieqmask.at', forall([u_, k_, i_], z3.Implies(z3.And(0 <= i_, i_ < ilen(u_)), T.bat(ieqmask(u_, k_), i_) == (iat(u_, i_) == k_)),
                            [T.bat(ieqmask(u_, k_), i_)]), ['ieqmask'], 'numpy')
 
 # element-wise arithmetic on real sequences
@@ -41,7 +42,7 @@ axiom('rscale.len', forall([x_, r_], T.rlen(rscale(x_, r_)) == T.rlen(r_), [rsca
 axiom('rscale.at', forall([x_, r_, i_], T.rat(rscale(x_, r_), i_) == T.rmul(x_, T.rat(r_, i_)), [T.rat(rscale(x_, r_), i_)]),
       ['rscale'], 'numpy')
 axiom('rshift.len', forall([x_, r_], T.rlen(rshift(r_, x_)) == T.rlen(r_), [rshift(r_, x_)]), ['rshift'], 'numpy')
-axiom('rshift.at', forall([x_, r_, i_], T.rat(rshift(r_, x_), i_) == T.rat(r_, i_) + x_, [T.rat(rshift(r_, x_), i_)]),
+axiom('rshift.at', forall([x_, r_, i_], z3.Implies(z3.And(0 <= i_, i_ < T.rlen(r_)), T.rat(rshift(r_, x_), i_) == T.rat(r_, i_) + x_), [T.rat(rshift(r_, x_), i_)]),
       ['rshift'], 'numpy')
 axiom('rmul.len', forall([r_, q_], T.rlen(rmul(r_, q_)) == T.rlen(r_), [rmul(r_, q_)]), ['rmul'], 'numpy')
 axiom('rmul.at', forall([r_, q_, i_], T.rat(rmul(r_, q_), i_) == T.rmul(T.rat(r_, i_), T.rat(q_, i_)),
@@ -57,7 +58,7 @@ axiom('isclose.def', forall([x_, y_], isclosef(x_, y_) ==
                             [isclosef(x_, y_)]), ['isclose'], 'numpy')
 closemask = F('closemask', RSeq, Real, BSeq)
 axiom('closemask.len', forall([r_, x_], T.blen(closemask(r_, x_)) == T.rlen(r_), [closemask(r_, x_)]), ['closemask'], 'numpy')
-axiom('closemask.at', forall([r_, x_, i_], T.bat(closemask(r_, x_), i_) == isclosef(T.rat(r_, i_), x_),
+axiom('closemask.at', forall([r_, x_, i_], z3.Implies(z3.And(0 <= i_, i_ < T.rlen(r_)), T.bat(closemask(r_, x_), i_) == isclosef(T.rat(r_, i_), x_)),
                              [T.bat(closemask(r_, x_), i_)]), ['closemask'], 'numpy')
 m_ = z3.Const('m', BSeq)
 n_ = z3.Const('n', BSeq)
